@@ -239,6 +239,23 @@ class MockUpstream:
             return bytes(req[:2]) + bytes([0x80 | (req[2] & 0x79), 0x02]) + b"\x00\x01\x00\x00\x00\x00\x00\x00" + bytes(req[12:i + 5])
         return bytes(req[:2]) + rep[2:]
 
+    def question_end(self, req):
+        i = 12
+        while i < len(req) and req[i] != 0:
+            i += 1 + req[i]
+        return i + 5
+
+    def one_a_reply(self, req, tc=False):
+        """the request's question answered with one A record (or, with tc, an empty truncated reply)"""
+        qe = self.question_end(req)
+        if qe > len(req):
+            return None
+        hdr = bytes(req[:2]) + bytes([0x80 | (req[2] & 1) | (2 if tc else 0), 0x80]) + b"\x00\x01" + (b"\x00\x00" if tc else b"\x00\x01") + b"\x00\x00\x00\x00"
+        rep = hdr + bytes(req[12:qe])
+        if not tc:
+            rep += b"\xc0\x0c\x00\x01\x00\x01\x00\x00\x00\x3c\x00\x04\xc0\x00\x02\x07"
+        return rep
+
     def run_udp(self):
         self.udp.settimeout(0.2)
         while not self.stopflag:
@@ -249,6 +266,12 @@ class MockUpstream:
             except OSError:
                 return
             if self.behaviour == "silent":
+                continue
+            if self.behaviour.startswith("tcp_"):
+                # over UDP only a truncated reply: the resolver has to come back over TCP
+                rep = self.one_a_reply(req, tc=True)
+                if rep:
+                    self.udp.sendto(rep, peer)
                 continue
             if self.behaviour == "wrong_id_stream":
                 rep = self.answer(req)
@@ -281,7 +304,6 @@ class MockUpstream:
                 return
             try:
                 if self.behaviour in ("silent", "wrong_id_stream"):
-                    c.close()
                     continue
                 c.settimeout(1.0)
                 hdr = c.recv(2)
@@ -293,6 +315,20 @@ class MockUpstream:
                         if not b:
                             break
                         req += b
+                    if self.behaviour.startswith("tcp_"):
+                        # tcp_full: the whole reply; tcp_cut:N: the length prefix, N octets of the reply, then the
+                        # connection is closed; tcp_prefix:N: only N octets of the length prefix
+                        rep = self.one_a_reply(req)
+                        if rep:
+                            framed = struct.pack("!H", len(rep)) + rep
+                            kind, _, arg = self.behaviour.partition(":")
+                            if kind == "tcp_full":
+                                c.sendall(framed)
+                            elif kind == "tcp_cut":
+                                c.sendall(framed[:2 + int(arg)])
+                            elif kind == "tcp_prefix":
+                                c.sendall(framed[:int(arg)])
+                        continue
                     rep = self.answer(req)
                     if rep:
                         c.sendall(struct.pack("!H", len(rep)) + rep)
